@@ -28,6 +28,10 @@ def cases(tier, seed):
         if tier == 'quick' and (nq, nr) == (9, 7) and basis == 'nu' and pot in ('const', 'dense', 'vortex'):
             continue
         out.append({'kind': 'step', 'nq': nq, 'nr': nr, 'basis': basis, 'pot': pot, 'nul': nul, 'explicit': expl, 'tier': tier, 'cost': 50 if expl else 200})
+    if tier == 'quick':
+        # theta and r splines of different degree and knots (2 and 4): arguments of the two directions must not be interchangeable
+        for nul, expl in itertools.product((False, True), (True, False)):
+            out.append({'kind': 'step', 'nq': 8, 'nr': 6, 'basis': 'nu24', 'pot': 'dense', 'nul': nul, 'explicit': expl, 'tier': tier, 'cost': 50 if expl else 200})
     for basis in ('cu', 'nu'):
         out.append({'kind': 'order', 'nq': 8, 'nr': 6, 'basis': basis, 'cost': 100})
         for amp, dt in ((0.01, 0.7), (0.03, 0.7), (0.1, 0.7), (0.1, 2.0), (0.3, 0.7)):
